@@ -66,8 +66,13 @@ def expected(events, raw):
                 rows.append(("R", tn, depth, name, buf.hex(), None, False))
                 i = j
                 continue
-            # other list parent: zero or one row of its own (D13)
-            rows.append(("R", tn, depth, name, "", "", True))
+            # other list parent: an empty list has exactly one row of its own (else the event would not be shown at
+            # all); a list with elements is visible through them and may or may not have a row (D13)
+            j = i + 1
+            while j < n and events[j][0] != "E":
+                j += 1
+            empty = not (j < n and is_child(path, events[j][1]))
+            rows.append(("R", tn, depth, name, "", "", not empty))
             i += 1
             continue
         if val == "...":
